@@ -79,9 +79,15 @@ Proof.
   apply bind_np; [apply to_f64_np|]. discriminate.
 Qed.
 
+Lemma num1_np fi f args : num1 fi f args <> Panic.
+Proof.
+  unfold num1. destruct (match exact_int args with Some i => fi i | None => None end); [discriminate|apply float1_np].
+Qed.
+
 Ltac np :=
   repeat first
     [ discriminate
+    | apply num1_np
     | apply float1_np
     | apply to_f64_np
     | apply to_display_np
